@@ -12,14 +12,14 @@ REAL = ["train_* routines", "buffers", "JAX/Flax/Optax", "multi-task schedulers 
 STUB = ["environment (SimEnv)", "action-space sampler", "train_st callback (StubTrainST) in scheduler plans"]
 ASSUMPTIONS = ["DQN family: the update gate checked is `step > batch_size` (the gate named in the property's anchors)",
                "an extra env.reset() after the last episode is not a violation"]
-TIERS = {"quick": {"runs": 99}, "thorough": {"runs": 2400}}
+TIERS = {"quick": {"runs": 120}, "thorough": {"runs": 2400}}
 REQUIRED = ["budget_exit", "episode_limit_exit", "resume", "warmup_iterations_observed", "returned_counter_exact", "scheduler_totals_exact", "ucb_argmax_checked", "initial_rounds", "protocol_misuse_rejected", "rollouts_checked", "several_tasks_trained"]
 REQUIRED_QUICK = ["budget_exit", "episode_limit_exit", "resume"]
 SHRINK_LISTS = [["env", "script"], ["chain"], ["ops"]]
 SHRINK_INTS = []
 CLAUSES = ["C11.a", "C11.b", "C11.c", "C11.d", "C11.e"]
 PLAN_LIMIT_S = 120
-ADAPTERS = ["ddpg", "td3", "td3_lap", "sac", "dqn", "nature_dqn", "ddqn", "ddqn_per", "td7", "mrq", "pets"]
+ADAPTERS = ["ddpg", "td3", "td3_lap", "sac", "dqn", "nature_dqn", "ddqn", "ddqn_per", "td7", "mrq", "pets", "reinforce", "actor_critic", "a2c", "ppo", "cmaes"]
 
 
 def make_plan(rng, tier, index):
@@ -35,7 +35,9 @@ def make_plan(rng, tier, index):
     plan["monitor"] = True
     T = plan["chain"][0]["total_timesteps"]
     mode = rng.choice(["budget", "episodes", "resume", "start_mid", "zero"])
-    if mode == "episodes" and ad.has_total_episodes:
+    if name == "cmaes":
+        plan["chain"][0]["total_episodes"] = plan["cfg"]["total_episodes"]
+    elif mode == "episodes" and ad.has_total_episodes:
         plan["chain"][0]["total_episodes"] = rng.choice([1, 1, 2, 3])
     elif mode == "resume" and ad.has_global_step:
         cuts = sorted({rng.randint(1, T - 1) for _ in range(rng.choice([1, 2]))})
